@@ -25,7 +25,8 @@ VARIABLES st,       \* the projection after the last accepted line
           revs,     \* Seq([id, idx, copy])  live revisions with the projection saved at Snapshot
           zero,     \* the zero hash as the code prints it
           bent,     \* deviations that were accepted at a Revert of this behaviour (st is not the ideal state then)
-          ghost     \* {<<account, root>>}: JournalOps.GhostsOf of everything reverted so far
+          ghost     \* JournalOps ghost pairs: <<account, root>> an empty value was written into that trie cache (by a
+                    \* setter or by an undo), <<account, "code">> the code was set (and stays dirty)
 tvars == <<st, base, journal, ver, revs, zero, bent, ghost, l>>
 
 AllTypes == {"bal", "sto", "code", "sui", "ev", "ax", "asup", "afr", "aid", "eq", "cand", "pst", "votes", "vf", "sig"}
@@ -49,7 +50,7 @@ TSet == /\ Ev("Set")
            /\ journal' = Append(journal, [a |-> a, k |-> k, old |-> OldOf(st[a], k), new |-> v, n |-> ver[<<a, t>>] + 1])
            /\ ver' = [ver EXCEPT ![<<a, t>>] = @ + 1]
         /\ st' = E.obs
-        /\ ghost' = GhostsAfterSet(ghost, E.a[1], E.a[2])
+        /\ ghost' = GhostsAfterSet(ghost, E.a[1], E.a[2], E.a[3])
         /\ UNCHANGED <<base, revs, zero, bent>>
 
 TSnapshot == /\ Ev("Snapshot")
@@ -99,34 +100,40 @@ RedoDeviates(D0) ==
   LET Ds == {D \in (SUBSET (AllowedDev \cap RedoDevs)) \ D0 : NoRoots(E.redo) = NoRoots(Redone(base, journal, zero, D))} IN
   /\ Ds # {}
   /\ \A d \in Smallest(Ds) : UseDev(d)
+\* Two projections are the same: every getter agrees and every root agrees - but for the listed deviations, each
+\* accepted only on a ghost pair of its kind and (where the outcome is predictable) only with the predicted values:
+\*   Dev_EmptyWriteLeavesEmptyRoot            one side has the hash of the empty trie where the other has the zero root
+\*   Dev_UndoAssetProfileKeyLeavesEmptyEntry  the asset-code roots differ (an entry "" against no entry)
+Same(x, y) ==
+  /\ NoRoots(x) = NoRoots(y)
+  /\ LET D  == {p \in (DOMAIN x) \X Roots : p[2] \in DOMAIN x[p[1]] /\ x[p[1]][p[2]] # y[p[1]][p[2]]}
+         De == {p \in D : p \in ghost /\ {x[p[1]][p[2]], y[p[1]][p[2]]} = {E.emptyroot, zero}}
+         Dp == {p \in D \ De : p[2] = "rac" /\ <<p[1], "afrkey">> \in ghost}
+     IN /\ D \subseteq De \cup Dp
+        /\ De # {} => "Dev_EmptyWriteLeavesEmptyRoot" \in AllowedDev /\ UseDev("Dev_EmptyWriteLeavesEmptyRoot")
+        /\ Dp # {} => "Dev_UndoAssetProfileKeyLeavesEmptyEntry" \in AllowedDev /\ UseDev("Dev_UndoAssetProfileKeyLeavesEmptyEntry")
 SealStrict ==
   LET pairs == {p \in (DOMAIN E.obs) \X Roots : p[2] \in DOMAIN E.obs[p[1]]}
       RootDiff == {p \in pairs : E.obs[p[1]][p[2]] # E.clean[p[1]][p[2]]}
-      extra(x) == \E p \in RootDiff : x.a = p[1] /\ x.t = RootLog(p[2])
-      notextra(x) == ~extra(x)
-      \* the executed projection with the roots of RootDiff as the other run has them
-      Ideal == [a \in DOMAIN E.obs |-> [f \in DOMAIN E.obs[a] |-> IF <<a, f>> \in RootDiff THEN E.clean[a][f] ELSE E.obs[a][f]]]
+      notextra(x) == ~\E p \in RootDiff : x.a = p[1] /\ x.t = RootLog(p[2])
+      touched == {E.pub[i].a : i \in 1..Len(E.pub)}
   IN
   \* the other run executed exactly the surviving entries of the spec's journal
   /\ E.cerr = ""
   /\ E.cleanops = [i \in 1..Len(journal) |-> <<journal[i].a, journal[i].k, journal[i].new>>]
-  \* reverted work leaves no trace: same getters ...
-  /\ Drop(E.clean, Roots \cup EvMask) = Drop(E.obs, Roots \cup EvMask)
-  \* ... same roots and same published logs (type, version, hash; in order)
-  /\ \/ RootDiff = {} /\ E.pub = E.cleanpub
-     \/ /\ RootDiff # {}                                                      \* listed deviation, exactly as predicted
-        /\ "Dev_RevertedCreationLeavesEmptyRoot" \in AllowedDev
-        /\ RootDiff \subseteq ghost
-        /\ \A p \in RootDiff : E.obs[p[1]][p[2]] = E.emptyroot /\ E.clean[p[1]][p[2]] = zero
-        /\ SelectSeq(E.pub, notextra) = E.cleanpub
-        /\ \A p \in RootDiff : \E i \in 1..Len(E.pub) : E.pub[i].a = p[1] /\ E.pub[i].t = RootLog(p[2])
-        /\ UseDev("Dev_RevertedCreationLeavesEmptyRoot")
-  \* what is saved is what was executed (Save writes the accounts that have published logs)
-  /\ E.serr = ""
-  /\ \A i \in 1..Len(E.pub) : LET a == E.pub[i].a IN
-        [f \in DOMAIN E.saved[a] \ Volatile |-> E.saved[a][f]] = [f \in DOMAIN E.obs[a] \ Volatile |-> E.obs[a][f]]
+  \* reverted work leaves no trace: same getters and roots ...
+  /\ Same(Drop(E.clean, EvMask), Drop(E.obs, EvMask))
+  \* ... and the same published logs (type, version, hash; in order), but for the root logs of roots that differ
+  /\ SelectSeq(E.pub, notextra) = SelectSeq(E.cleanpub, notextra)
+  \* the block can be saved, and what is saved is what was executed (Save writes the accounts with published logs)
+  /\ \/ /\ E.serr = ""
+        /\ \A a \in touched : [f \in DOMAIN E.saved[a] \ Volatile |-> E.saved[a][f]] = [f \in DOMAIN E.obs[a] \ Volatile |-> E.obs[a][f]]
+     \/ /\ E.serr = "invalid argument"                                        \* listed deviation, exactly as predicted
+        /\ "Dev_SaveFailsOnDirtyEmptyCode" \in AllowedDev
+        /\ \E a \in touched : <<a, "code">> \in ghost /\ E.obs[a].code = ""
+        /\ UseDev("Dev_SaveFailsOnDirtyEmptyCode")
   \* the replay of the published logs gives the executed state, roots included
-  /\ \/ Drop(E.redo, EvMask) = Drop(Ideal, EvMask)
+  /\ \/ Same(Drop(E.redo, EvMask), Drop(E.obs, EvMask))
      \/ /\ Drop(E.redo, Roots \cup EvMask) # Drop(E.obs, Roots \cup EvMask)
         /\ RedoDeviates({{}})
 \* st was bent by a listed undo deviation: the other run and the re-read cannot be compared with it; the replay still has
